@@ -14,6 +14,37 @@ LOOP = "net::event_loop::EventLoop"
 LOOPS = "net::EventLoops"
 
 
+OSCALLS = tuple(SEL + "::" + p + n for p in ("", "do_") for n in ("register", "reregister", "deregister"))
+
+
+def _from_event_token(f, b, du, op, at):
+    """The operand is the token of the readiness event being handled: `event.get_token()` reached through value-preserving
+    steps, or the item of a lazy iterator chain built here whose mapping function is get_token
+    (`events.iter().filter(..).map(Event::get_token).for_each(|token| ..)`)."""
+    sl = backward(b, op, du, at=at, through_calls="none")
+    if sl.binops():
+        return False
+    if any(norm(t.get("orig") or "").endswith("Event::get_token") for (_x, t) in sl.calls):
+        return True
+    if not any(norm(t.get("orig") or "").endswith("Iterator::next") for (_x, t) in sl.calls):
+        return False
+    al = backward(b, op, du, at=at, through_calls="all")
+    maps = [t for (_x, t) in al.calls if norm(t.get("orig") or t.get("callee") or "").endswith("Iterator::map")]
+    for t in maps:
+        fn = t["args"][1] if len(t["args"]) > 1 else None
+        if fn is None:
+            continue
+        if fn["k"] == "const" and fn.get("fn") and norm(fn["fn"].get("orig") or fn["fn"]["callee"]).endswith("Event::get_token"):
+            return True
+        d = describe_val(b, du, fn)
+        if isinstance(d, tuple) and d and d[0] == "closure":
+            for cb in f.by_npath.get(d[1], []):
+                cs = [norm(tt.get("orig") or "") for (_y, tt) in cb.calls()]
+                if any(c.endswith("Event::get_token") for c in cs) and len([c for c in cs if c]) == 1:
+                    return True
+    return False
+
+
 # ------------------------------------------------------------------ C21 machine
 def _steps(f, b, w, path, conds):
     """Translate a path into abstract steps by interpreting it with value provenance: every OS call (register /
@@ -61,8 +92,11 @@ def _steps(f, b, w, path, conds):
                     steps.append(("test", rec, v))
             elif o.startswith("net::selector::Interest::"):
                 interest = {"read": "r", "write": "w", "read_and_write": "rw"}.get(o.rsplit("::", 1)[1])
-            elif c in (SEL + "::register", SEL + "::reregister", SEL + "::deregister"):
-                calls.append([c.rsplit("::", 1)[1], interest if "deregister" not in c else None, None])
+            elif c in OSCALLS or o in OSCALLS:
+                # the wrapper (register = do_register + TOKEN_FD bookkeeping) or, when the author inlined the wrapper,
+                # the primitive itself
+                c = c if c in OSCALLS else o
+                calls.append([c.rsplit("::", 1)[1].replace("do_", ""), interest if "deregister" not in c else None, None])
                 steps.append(("os", len(calls) - 1))
                 val = ("res", len(calls) - 1)
             elif c == SEL + "::del_event" and getattr(b, "origin", b).npath != SEL + "::del_event":
@@ -76,8 +110,9 @@ def _steps(f, b, w, path, conds):
                 for cb in f.closures_of(getattr(b, "origin", b)):
                     for (_y, tt) in cb.calls():
                         cc = norm(tt.get("callee") or "")
-                        if cc in (SEL + "::register", SEL + "::reregister"):
-                            calls[k] = [calls[k][0] + "+" + cc.rsplit("::", 1)[1], calls[k][1], None]
+                        cc = cc if cc in OSCALLS else norm(tt.get("orig") or "")
+                        if cc in OSCALLS and "deregister" not in cc:
+                            calls[k] = [calls[k][0] + "+" + cc.rsplit("::", 1)[1].replace("do_", ""), calls[k][1], None]
                 val = ("res", k)
             elif c.endswith("Try>::branch") and a0l in env:
                 v = env[a0l]
@@ -240,37 +275,49 @@ def close_rule(run, f, rid):
             run.ok(rid, "close/del-before-close", "EventLoops::del_event(fd) dominates inner.close")
         else:
             run.fail(rid, "close/del-before-close", b.loc(), "the hooked close must deregister the descriptor (EventLoops::del_event) before closing it; afterwards the number may already be reused")
-    b = need(run, rid, f, "<syscall::unix::shutdown::NioShutdownSyscall as syscall::unix::shutdown::ShutdownSyscall>::shutdown")
+    b = unit(run, rid, f, "<syscall::unix::shutdown::NioShutdownSyscall as syscall::unix::shutdown::ShutdownSyscall>::shutdown")
     if b is not None:
-        cfg = Cfg(b)
-        du = DefUse(b)
-        inner = [x for (x, t) in b.calls() if norm(t.get("orig") or "").endswith("ShutdownSyscall::shutdown")]
-        sw = None
-        for blk in b.blocks:
-            t = blk["term"]
-            if t["k"] == "switch" and t["dty"] in ("i32",) and b.name_of(op_local(t["discr"]) or -1) in ("how",) or (t["k"] == "switch" and t["dty"] == "i32" and any(b.name_of(p) == "how" for p in backward(b, t["discr"], du, at=(blk["id"], "term"), through_calls="none").params)):
-                sw = blk
-                break
+        from analysis.table import int_facts
+        w = PathWalker(b)
+        paths = w.walk(0, lambda bid, t: ("return",) if t["k"] == "return" else None)
+        run.count("paths_or_states", len(paths))
+        want = {"0": LOOPS + "::del_read_event", "1": LOOPS + "::del_write_event", "2": LOOPS + "::del_event"}
+        is_how = lambda d: isinstance(d, tuple) and len(d) >= 3 and d[0] == "param" and d[2] == "how"
         why = []
-        if sw is None or not inner:
-            why.append("no match on `how`")
-        else:
-            t = sw["term"]
-            want = {"0": LOOPS + "::del_read_event", "1": LOOPS + "::del_write_event", "2": LOOPS + "::del_event"}
-            got = {}
-            for v, bb in t["targets"]:
-                cs = [norm(b.blocks[x]["term"].get("callee") or "") for x in cfg.reachable({bb}, avoid={inner[0]}) if b.blocks[x]["term"]["k"] == "call"]
-                got[str(v)] = [c for c in cs if c.startswith(LOOPS + "::del_")]
-            for v, wcal in want.items():
-                if got.get(v) != [wcal]:
-                    why.append("SHUT value %s drops %s (expected %s)" % (v, got.get(v), wcal.rsplit("::", 1)[1]))
-            # otherwise: EINVAL and return without the inner call
-            r = cfg.reachable({t["otherwise"]})
-            cs = [norm(b.blocks[x]["term"].get("callee") or "") for x in r if b.blocks[x]["term"]["k"] == "call"]
-            if inner[0] in r or "syscall::unix::set_errno" not in cs:
-                why.append("an invalid `how` is not rejected with EINVAL before the inner call")
+        seen = {k: 0 for k in list(want) + ["other"]}
+        for (pth, conds, sv) in paths:
+            if sv[0] != "return":
+                continue
+            eq, ne = int_facts(conds, is_how)
+            calls = [norm(b.blocks[x]["term"].get("callee") or "") for x in pth if b.blocks[x]["term"]["k"] == "call"]
+            origs = [norm(b.blocks[x]["term"].get("orig") or "") for x in pth if b.blocks[x]["term"]["k"] == "call"]
+            dels = [c for c in calls if c.startswith(LOOPS + "::del_")]
+            inner = any(o.endswith("ShutdownSyscall::shutdown") for o in origs)
+            for v in list(want) + ["other"]:
+                if v == "other":
+                    if eq & set(want):
+                        continue
+                else:
+                    if (eq and eq != {v}) or v in ne:
+                        continue
+                seen[v] += 1
+                if v == "other":
+                    if inner or "syscall::unix::set_errno" not in calls:
+                        why.append("an invalid `how` is not rejected with EINVAL before the inner call")
+                    if dels:
+                        why.append("an invalid `how` drops interest (%s)" % sorted(c.rsplit("::", 1)[1] for c in dels))
+                else:
+                    if dels != [want[v]]:
+                        why.append("SHUT value %s drops %s (expected %s)" % (v, [c.rsplit("::", 1)[1] for c in dels], want[v].rsplit("::", 1)[1]))
+                    elif not inner:
+                        why.append("SHUT value %s never reaches the inner shutdown" % v)
+                    elif pth.index([x for x in pth if norm(b.blocks[x]["term"].get("callee") or "") == want[v]][0]) > [i for i, x in enumerate(pth) if norm(b.blocks[x]["term"].get("orig") or "").endswith("ShutdownSyscall::shutdown")][0]:
+                        why.append("SHUT value %s drops the interest only after the inner shutdown" % v)
+        for v, n in seen.items():
+            if n == 0:
+                why.append("no path for `how` = %s" % v)
         if why:
-            run.fail(rid, "shutdown/mapping", b.loc(), "; ".join(why))
+            run.fail(rid, "shutdown/mapping", b.loc(), "; ".join(sorted(set(why))[:4]))
         else:
             run.ok(rid, "shutdown/mapping", "SHUT_RD->del_read_event, SHUT_WR->del_write_event, SHUT_RDWR->del_event, else EINVAL")
 
@@ -365,18 +412,33 @@ def _lossless(f, b, du, op, at, param_name, depth=2):
 
 def chain_rule(run, f, rid):
     run.rule(rid, "a readiness event resumes the coroutine whose id was registered: wait_just -> resume(token) -> try_resume(token); registration uses the current coroutine's id", floor=4, template="T5")
-    b = need(run, rid, f, LOOP + "::wait_just")
+    # end to end on wait_just with EventLoop::resume spliced in (whether `resume` is a function of its own or was inlined
+    # by the author): every Scheduler::try_resume(t) has t = event.get_token() unchanged, and is guarded by
+    # COROUTINE_TOKENS.remove(&t) having found that same token
+    b = unit(run, rid, f, LOOP + "::wait_just", force=(LOOP + "::resume",))
     if b is not None:
         du = DefUse(b)
-        rs = find_calls(b, callee_is(LOOP + "::resume"))
-        ok = len(rs) == 1 and any(norm(t.get("orig") or "").endswith("Event::get_token") for (_x, t) in backward(b, rs[0][1]["args"][1], du, at=(rs[0][0], "term"), through_calls="none").calls)
-        sl = backward(b, rs[0][1]["args"][1], du, at=(rs[0][0], "term")) if rs else None
-        if ok and not sl.binops():
-            run.ok(rid, "wait_just/resume-token", "resume(event.get_token())")
+        cfg = Cfg(b)
+        tr = find_calls(b, callee_is("scheduler::Scheduler::try_resume"))
+        rm = [(x, t) for (x, t) in find_calls(b, callee_is("dashmap::DashSet::remove")) if static_of(b, du, t["args"][0]) == "net::event_loop::COROUTINE_TOKENS"]
+        why = None
+        if not tr:
+            why = "wait_just never resumes a coroutine for a readiness event"
+        for (x, t) in tr:
+            if not _from_event_token(f, b, du, t["args"][1], (x, "term")):
+                why = "wait_just must resume exactly the token carried by the readiness event"
+            guards = [(y, tt) for (y, tt) in rm if cfg.dominates(y, x)]
+            if not guards:
+                why = why or "the token is resumed without being looked up (and removed) in COROUTINE_TOKENS first"
+            for (y, tt) in guards:
+                if not _from_event_token(f, b, du, tt["args"][1], (y, "term")):
+                    why = why or "the token looked up in COROUTINE_TOKENS is not the token that is resumed"
+        if why:
+            run.fail(rid, "wait_just/resume-token", b.loc(), why)
         else:
-            run.fail(rid, "wait_just/resume-token", b.loc(), "wait_just must resume exactly the token carried by the readiness event")
-    b = need(run, rid, f, LOOP + "::resume")
-    if b is not None:
+            run.ok(rid, "wait_just/resume-token", "COROUTINE_TOKENS.remove(&event.get_token()) then try_resume(event.get_token())")
+    if f.body(LOOP + "::resume") is not None:
+        b = need(run, rid, f, LOOP + "::resume")
         du = DefUse(b)
         cfg = Cfg(b)
         rm = [(x, t) for (x, t) in find_calls(b, callee_is("dashmap::DashSet::remove")) if static_of(b, du, t["args"][0]) == "net::event_loop::COROUTINE_TOKENS"]
@@ -607,6 +669,16 @@ def direction_rule(run, f, rid):
                                 facts[("r", u[1])] = val
                             elif v[0] == "local":
                                 facts[(v[1], u[1])] = val
+                elif cd[0] == "int":
+                    # `match name { SO_SNDTIMEO => .., SO_RCVTIMEO => .., _ => .. }`: an integer switch on the operand
+                    v = cd[1]
+                    who = v[2] if v and v[0] == "param" else ("r" if v and v[0] == "call" and v[1].endswith("::setsockopt") else (v[1] if v and v[0] == "local" else None))
+                    if who is not None:
+                        if isinstance(cd[2], tuple) and cd[2] and cd[2][0] == "not":
+                            for nv in cd[2][1]:
+                                facts[(who, str(nv))] = False
+                        else:
+                            facts[(who, str(cd[2]))] = True
             if not (facts.get(("r", "0")) is True):
                 ok, why = False, "the table is updated although the real setsockopt did not return 0 (a rejected option value would be cached)"
             elif not (facts.get(("level", "1")) is True):
